@@ -2387,7 +2387,8 @@ def preprocess_file(
             # This also does not allow for multiline argument list definitions.
             # if match.group(3):
             #     def_name += match.group(3)
-            if (match.group(1) == "define") and (def_name not in defs_tmp):
+            # A second #define of a name replaces the first one, as in cpp
+            if match.group(1) == "define":
                 eq_ind = line[match.end(0) :].find(" ")
                 if eq_ind >= 0:
                     # Handle multiline macros
